@@ -21,144 +21,97 @@ import (
 //
 // Every fixed history is run once with the recorder on.  The log holds
 // OpenWrite / WriteAt(file,off,bytes) / Sync(file) / Truncate / Close / Delete
-// events plus LDB(m) markers: "leveldb now durably holds the first m committed
-// steps" (m = 0: only the setup transaction that creates the user root bucket;
-// before the first marker not even that).  The markers are placed by the driver
-// right after the commit / close that flushed returns; no block-file I/O happens
-// between the real leveldb commit and that point.
+// events, StepEnd(j[,flushed]) events written by the driver when a step has
+// returned (j = committed steps so far; "flushed": the step promised durability
+// -- flush-on-commit, forced flush, clean close), and LDB#k markers.
+//
+// LDB#k markers are OBSERVED, not inferred: at every recorded file event and at
+// every step end the recorder looks at the leveldb directory of the database
+// under test; if its logical content changed since the last look, a verified
+// point-in-time copy of the directory becomes "metadata state #k" and the marker
+// is appended BEFORE the current event (see fsim.observeLocked).  Everything runs
+// in one goroutine, so a marker is ordered exactly with respect to the block-file
+// events around it (sync-before-commit, delete-before/after-commit ...).  Two
+// leveldb commits with no block-file event between them are seen as one change.
 //
 // For EVERY prefix of the log and EVERY subset of the writes not covered by a
 // later Sync of the same file (inside the prefix) being dropped -- the newest
 // `cap` unsynced writes are varied exhaustively, older ones are kept, plus the
 // all-dropped image -- and the last write additionally torn at half length, the
-// block-file directory is materialised, the leveldb directory of state m
-// (obtained by re-running the history up to step m on a scratch instance and
-// closing it cleanly) is copied next to it, and the image is opened through
+// block-file directory is materialised, the copy of metadata state #k (k = last
+// marker inside the prefix) is put next to it, and the image is opened through
 // database.Open (-> reconcileDB).
 //
-// Oracle: Open succeeds; the full dump equals refdb after the first m committed
-// steps (m = newest flush completed inside the prefix, so the state is a prefix
-// of the committed transactions and not older than the last completed flush --
-// which is all the property demands; newer unflushed transactions may be lost);
-// every block the metadata indexes is readable and byte-identical (part of the
-// dump); afterwards a new transaction (Put + StoreBlock) commits, is visible and
+// Oracle: Open succeeds; the full dump equals refdb after SOME prefix j of the
+// committed steps (j = -1: not even the setup transaction), never a mixture; j is
+// not older than the newest StepEnd(j,flushed) inside the log prefix; every block
+// the metadata indexes is readable and byte-identical (part of the dump);
+// afterwards a new transaction (Put + StoreBlock) commits, is visible and
 // survives a clean close + reopen.
 
 type crashHist struct {
 	h      ioHist
 	log    []fsEvent
-	states map[int]*refdb.State // m -> reference state (nil entry for m = -1: nothing at all)
-	meta   map[int]string       // m -> directory holding a copy of the leveldb dir in state m
+	states map[int]*refdb.State // j committed steps -> reference state (j = 0: setup only)
+	meta   map[int]string       // observed metadata state #k -> directory holding its verified copy
 	nSteps int
+	fs     *fsim
 }
 
-// recordHistory runs the history with the recorder on and prepares the metadata
-// directories for every m that occurs as a marker.
+// recordHistory runs the history with the recorder on; the metadata states are
+// the copies the recorder took whenever it saw the leveldb directory change.
 func recordHistory(h ioHist) (*crashHist, *disc, error) {
 	fs := &fsim{record: true}
-	s, err := newSess(h.Cfg, fs)
+	s, err := newSess(h.Cfg, fs) // observes state #0 after Create, logs StepEnd(0) after the setup tx
 	if err != nil {
 		return nil, nil, err
 	}
 	defer s.destroy()
-	ch := &crashHist{h: h, states: map[int]*refdb.State{}, meta: map[int]string{}}
-	if h.Cfg.FlushEvery {
-		fs.mark(0)
-	}
+	ch := &crashHist{h: h, states: map[int]*refdb.State{}, fs: fs}
 	committed := 0 // committed steps so far
-	// reference states indexed by number of committed steps
 	ch.states[0] = s.ref.Committed().Clone()
+	fail := func(d *disc) (*crashHist, *disc, error) {
+		fs.cleanupSnaps()
+		return nil, d, nil
+	}
 	for i, st := range h.Steps {
 		r := s.runStep(i, st, false)
 		if r.d != nil {
-			return nil, r.d, nil
+			return fail(r.d)
 		}
 		if r.commitErr != nil {
-			return nil, &disc{Class: "Commit/error", What: r.commitErr.Error(), Step: i, Op: -1}, nil
+			return fail(&disc{Class: "Commit/error", What: r.commitErr.Error(), Step: i, Op: -1})
 		}
 		switch {
 		case st.Kind == "reopen":
-			fs.mark(committed)
+			fs.stepEnd(committed, true)
 		case st.isTx() && st.End == "commit" && st.writable():
 			committed++
 			ch.states[committed] = s.ref.Committed().Clone()
-			if h.Cfg.FlushEvery || st.Flush == "force" {
-				// the flush path commits the cache first (steps < this one),
-				// then the transaction itself: two leveldb commits
-				fs.mark(committed - 1)
-				fs.mark(committed)
-			}
+			fs.stepEnd(committed, h.Cfg.FlushEvery || st.Flush == "force")
+		default:
+			fs.stepEnd(committed, false)
 		}
 	}
 	ch.nSteps = committed
 	if err := s.in.close(); err != nil {
-		return nil, &disc{Class: "Close/error", What: err.Error(), Op: -1}, nil
+		return fail(&disc{Class: "Close/error", What: err.Error(), Op: -1})
 	}
-	fs.mark(committed)
+	fs.stepEnd(committed, true)
 	fs.mu.Lock()
 	ch.log = append([]fsEvent{}, fs.log...)
+	ch.meta = fs.snaps
+	obsErr := fs.obsErr
 	fs.mu.Unlock()
-	// metadata directories
-	need := map[int]bool{-1: true}
-	for _, e := range ch.log {
-		if e.Kind == evMark {
-			need[e.N] = true
-		}
+	if obsErr != "" {
+		fs.cleanupSnaps()
+		return nil, nil, fmt.Errorf("metadata observation: %s", obsErr)
 	}
-	for m := range need {
-		dir, err := metadataFor(h, m)
-		if err != nil {
-			return nil, nil, fmt.Errorf("metadata for m=%d: %v", m, err)
-		}
-		ch.meta[m] = dir
+	if len(ch.log) == 0 || ch.log[0].Kind != evMark || ch.log[0].N != 0 {
+		fs.cleanupSnaps()
+		return nil, nil, fmt.Errorf("metadata observation: the log does not start with LDB#0")
 	}
 	return ch, nil, nil
-}
-
-// metadataFor re-runs the history up to its m-th committed step on a scratch
-// instance, closes it cleanly and keeps a copy of the leveldb directory.
-func metadataFor(h ioHist, m int) (string, error) {
-	var in *inst
-	if m < 0 {
-		var err error
-		in, err = createInst(h.Cfg, nil)
-		if err != nil {
-			return "", err
-		}
-	} else {
-		s, err := newSess(h.Cfg, nil)
-		if err != nil {
-			return "", err
-		}
-		in = s.in
-		committed := 0
-		for i, st := range h.Steps {
-			if committed == m {
-				break
-			}
-			if st.Kind == "reopen" {
-				continue
-			}
-			r := s.runStep(i, st, false)
-			if r.d != nil || r.commitErr != nil {
-				in.destroy()
-				return "", fmt.Errorf("scratch run diverged: %v %v", r.d, r.commitErr)
-			}
-			if st.End == "commit" && st.writable() {
-				committed++
-			}
-		}
-	}
-	if err := in.close(); err != nil {
-		in.destroy()
-		return "", err
-	}
-	dst := newDir("meta")
-	if err := copyDir(filepath.Join(in.dir, ffldb.VerifMetadataDirName), dst); err != nil {
-		return "", err
-	}
-	in.destroy()
-	return dst, nil
 }
 
 func copyDir(src, dst string) error {
@@ -196,7 +149,8 @@ type pendingWrite struct {
 type diskState struct {
 	files            map[uint32][]byte // durable content
 	pending          []pendingWrite    // unsynced writes in log order
-	m                int
+	m                int               // newest observed metadata state inside the prefix (LDB#m)
+	jmin             int               // newest StepEnd(j, flushed) inside the prefix: the recovered state must not be older
 	lastIsWrite      bool
 	deletedAfterMark bool // a Delete happened after the newest LDB marker in the prefix
 }
@@ -214,7 +168,7 @@ func applyWrite(buf []byte, off int64, data []byte) []byte {
 
 // stateAt replays the first p events.
 func stateAt(log []fsEvent, p int) *diskState {
-	ds := &diskState{files: map[uint32][]byte{}, m: -1}
+	ds := &diskState{files: map[uint32][]byte{}, m: -1, jmin: -1}
 	for i := 0; i < p; i++ {
 		e := log[i]
 		ds.lastIsWrite = false
@@ -273,6 +227,10 @@ func stateAt(log []fsEvent, p int) *diskState {
 				ds.m = e.N
 			}
 			ds.deletedAfterMark = false
+		case evStep:
+			if e.Off == 1 && e.N > ds.jmin {
+				ds.jmin = e.N
+			}
 		}
 	}
 	return ds
@@ -322,9 +280,12 @@ func imageHash(m int, files map[uint32][]byte) [32]byte {
 }
 
 // checkImage opens one crash image and applies the oracle.
-func (ch *crashHist) checkImage(m int, files map[uint32][]byte) *disc {
+func (ch *crashHist) checkImage(m, jmin int, files map[uint32][]byte) *disc {
 	dir := newDir("img")
 	defer os.RemoveAll(dir)
+	if _, ok := ch.meta[m]; !ok {
+		return &disc{Class: "harness", What: fmt.Sprintf("no copy of metadata state #%d", m)}
+	}
 	if err := copyDir(ch.meta[m], filepath.Join(dir, ffldb.VerifMetadataDirName)); err != nil {
 		return &disc{Class: "harness", What: err.Error()}
 	}
@@ -342,32 +303,59 @@ func (ch *crashHist) checkImage(m int, files map[uint32][]byte) *disc {
 		return &disc{Class: "open/error", What: "database.Open of the crash image failed: " + oerr.Error(), Op: -1}
 	}
 	defer in.destroy()
+	// which prefix of the committed steps did the store come back to?
 	var st *refdb.State
-	if m >= 0 {
-		st = ch.states[m].Clone()
-	} else {
-		// not even the setup transaction is durable: the user root must be absent
-		var has bool
-		err := in.db.View(func(tx database.Tx) error {
-			has = tx.Metadata().Bucket(userRoot) != nil
-			for i := range blocks {
-				if ok, _ := tx.HasBlock(&blocks[i].hash); ok {
-					return fmt.Errorf("block %d present", i)
-				}
-			}
+	j := -2
+	var hasRoot bool
+	if err := in.db.View(func(tx database.Tx) error {
+		hasRoot = tx.Metadata().Bucket(userRoot) != nil
+		if hasRoot {
 			return nil
-		})
-		if err != nil || has {
-			return &disc{Class: "recovered-state/state", What: fmt.Sprintf("nothing was flushed, but the reopened store has user data (root bucket=%v, %v)", has, err), Op: -1}
 		}
-		err = in.db.Update(func(tx database.Tx) error {
+		for i := range blocks {
+			if ok, _ := tx.HasBlock(&blocks[i].hash); ok {
+				return fmt.Errorf("block %d present", i)
+			}
+		}
+		return nil
+	}); err != nil {
+		return &disc{Class: "dump-after-crash-recovery/state", What: "the reopened store has no user root bucket but " + err.Error(), Op: -1}
+	}
+	if !hasRoot {
+		// not even the setup transaction came back
+		j = -1
+		if jmin > j {
+			return &disc{Class: "dump-after-crash-recovery/older-than-completed-flush", What: fmt.Sprintf("the store reopened empty although %d committed step(s) had been flushed before the crash", jmin), Op: -1}
+		}
+		if err := in.db.Update(func(tx database.Tx) error {
 			_, e := tx.Metadata().CreateBucket(userRoot)
 			return e
-		})
-		if err != nil {
+		}); err != nil {
 			return &disc{Class: "recovery-next-transaction/error", What: err.Error(), Op: -1}
 		}
 		st = refdb.NewState()
+	} else {
+		got, err := in.viewDump()
+		if err != nil {
+			return &disc{Class: "dump-after-crash-recovery/error", What: "reading back the full state failed: " + err.Error(), Op: -1}
+		}
+		for c := ch.nSteps; c >= 0; c-- {
+			if ch.states[c].Dump() == got {
+				j = c
+				break
+			}
+		}
+		if j == -2 {
+			want := ch.states[ch.nSteps].Dump()
+			if jmin >= 0 {
+				want = ch.states[jmin].Dump()
+			}
+			return &disc{Class: "dump-after-crash-recovery/state", What: fmt.Sprintf("the recovered state is not the state after ANY prefix of the %d committed steps (a mixture): %s", ch.nSteps, shortDiff(got, want)), Op: -1}
+		}
+		if j < jmin {
+			return &disc{Class: "dump-after-crash-recovery/older-than-completed-flush", What: fmt.Sprintf("the store came back in the state after %d committed step(s) although %d had been flushed before the crash", j, jmin), Op: -1}
+		}
+		st = ch.states[j].Clone()
 	}
 	s := &sess{in: in, ref: refdb.FromState(st), skipInvalidRegions: true}
 	if d := s.checkCommitted("after-crash-recovery"); d != nil {
@@ -448,7 +436,7 @@ func (ch *crashHist) runCase(c crashCase) (*disc, string) {
 	for _, i := range c.Dropped {
 		drop[i] = true
 	}
-	d := ch.checkImage(ds.m, ds.image(drop, c.Torn))
+	d := ch.checkImage(ds.m, ds.jmin, ds.image(drop, c.Torn))
 	if d == nil {
 		return nil, ""
 	}
@@ -473,9 +461,7 @@ func replayCrash(rp replayObj) string {
 }
 
 func (ch *crashHist) cleanup() {
-	for _, d := range ch.meta {
-		os.RemoveAll(d)
-	}
+	ch.fs.cleanupSnaps()
 }
 
 func partCrash(r *ev.Run, viols *violSet) {
@@ -510,7 +496,7 @@ func partCrash(r *ev.Run, viols *violSet) {
 				drop[i] = true
 			}
 			totalImages++
-			hsh := imageHash(ds.m, ds.image(drop, c.Torn))
+			hsh := imageHash(ds.m*1000+ds.jmin+1, ds.image(drop, c.Torn))
 			if seen[hsh] {
 				return
 			}
@@ -518,7 +504,7 @@ func partCrash(r *ev.Run, viols *violSet) {
 			cases = append(cases, c)
 		}
 		maxUnsynced := 0
-		for p := 0; p <= len(ch.log); p++ {
+		for p := 1; p <= len(ch.log); p++ { // the log starts with LDB#0 (the freshly created database)
 			ds := stateAt(ch.log, p)
 			n := len(ds.pending)
 			if n > maxUnsynced {
@@ -593,7 +579,7 @@ func partCrash(r *ev.Run, viols *violSet) {
 			cleanupAll()
 			r.Broken("part (c) harness: cannot materialise crash images")
 		}
-		perHist[h.Name] = map[string]int{"log_events": len(ch.log), "distinct_images": len(cases), "max_unsynced_writes": maxUnsynced, "failing_images": fails}
+		perHist[h.Name] = map[string]int{"observed_metadata_states": len(ch.meta), "log_events": len(ch.log), "distinct_images": len(cases), "max_unsynced_writes": maxUnsynced, "failing_images": fails}
 		if !sampled && len(cases) > 3 {
 			sampled = true
 			var evs []string
